@@ -284,11 +284,16 @@ func inputGridWith(inv Oracle) (*PureEvidence, []Found) {
 		wg.Add(1)
 		go func() {
 			defer wg.Done()
+			rig := NewRig(sc.Rig) // a keeper of its own: nothing a keeper might hold in memory is shared between workers
 			lc := map[string]int64{}
 			ld := map[string]bool{}
 			var lf []Found
 			for i := range ch {
 				ic := msgs[i]
+				if rig.Dirty() {
+					lc["keeper-memory-changed"]++
+					rig = NewRig(sc.Rig)
+				}
 				lc["generated/"+ic.Name]++
 				if err := ic.Msg.ValidateBasic(); err != nil {
 					lc["stateless-reject/"+ic.Name]++
